@@ -84,9 +84,9 @@ pub fn short(s: &str, max: usize) -> String {
     }
 }
 
-pub fn rustfmt(code: &str) -> Option<String> {
+pub fn rustfmt(code: &str, cwd: &Path) -> Option<String> {
     use std::io::Write;
-    let mut child = Command::new("rustfmt").stdin(Stdio::piped()).stdout(Stdio::piped()).stderr(Stdio::null()).spawn().ok()?;
+    let mut child = Command::new("rustfmt").current_dir(cwd).stdin(Stdio::piped()).stdout(Stdio::piped()).stderr(Stdio::null()).spawn().ok()?;
     child.stdin.as_mut()?.write_all(code.as_bytes()).ok()?;
     let out = child.wait_with_output().ok()?;
     if out.status.success() {
